@@ -318,6 +318,15 @@ static std::string line_snapshot(gr_segment *seg, const std::vector<Line> &lines
     return out;
 }
 
+// pointer-level snapshot for Model/LinePtrModel.v: next.prev of every slot (by id), then the segment's first,last
+static std::string ptr_snapshot(gr_segment *seg, const std::vector<const gr_slot *> &all) {
+    std::string out = "Q";
+    for (size_t i = 0; i < all.size(); i++)
+        out += (i ? "," : "") + std::to_string(slot_id(gr_slot_next_in_segment(all[i]))) + "." + std::to_string(slot_id(gr_slot_prev_in_segment(all[i])));
+    out += "/" + std::to_string(slot_id(gr_seg_first_slot(seg))) + "." + std::to_string(slot_id(gr_seg_last_slot(seg))) + ";";
+    return out;
+}
+
 int main(int argc, char **argv) {
     repo = argc > 1 ? argv[1] : "/repo";
     std::string line;
@@ -512,13 +521,21 @@ int main(int argc, char **argv) {
             // lines: initially one
             std::vector<Line> lines(1);
             { Walk w; walk_from(gr_seg_first_slot(seg), 2 * (size_t)gr_seg_n_slots(seg) + 8, w); lines[0].s = w.s; }
-            bool jtrace = false;
+            bool jtrace = false; std::vector<const gr_slot *> all_slots;
             for (size_t k = 10; k < f.size(); k++) if (f[k] == "jtrace") jtrace = true;
             std::string jev;
             if (jtrace) {          // ids in stream order, so that the line model can be initialised from the first snapshot
                 g_ids.clear();
                 for (size_t i = 0; i < lines[0].s.size(); i++) slot_id(lines[0].s[i]);
                 jev = line_snapshot(seg, lines);
+                // which slots reverseSlots treats as marks (bidi class 16), by id; then the initial links
+                graphite2::Segment *gs0 = static_cast<graphite2::Segment *>(seg);
+                jev += "M";
+                for (size_t i = 0; i < lines[0].s.size(); i++) jev += gs0->getSlotBidiClass(const_cast<graphite2::Slot *>(static_cast<const graphite2::Slot *>(lines[0].s[i]))) == 16 ? '1' : '0';
+                jev += ";" + ptr_snapshot(seg, all_slots = lines[0].s);
+                // the direction word and what justify's control depends on: D<m_dir>,<font dir>,<bidi pass setting present>,<justification passes present>
+                jev += "D" + std::to_string((int)gs0->dir()) + "," + std::to_string((int)gs0->silf()->dir()) + "," + std::to_string(gs0->silf()->bidiPass() != gs0->silf()->numPasses() ? 1 : 0)
+                     + "," + std::to_string(gs0->silf()->justificationPass() != gs0->silf()->positionPass() ? 1 : 0) + ";";
             }
             for (size_t k = 10; k < f.size(); k++) {
                 const std::string &op = f[k];
@@ -603,7 +620,7 @@ int main(int argc, char **argv) {
                     Line tail; tail.s.assign(lines[li].s.begin() + off, lines[li].s.end());
                     lines[li].s.resize(off);
                     lines.insert(lines.begin() + li + 1, tail);
-                    if (jtrace) jev += g_events + line_snapshot(seg, lines);
+                    if (jtrace) jev += g_events + line_snapshot(seg, lines) + ptr_snapshot(seg, all_slots);
                     out += " | break ok";
                 } else if (op.compare(0, 5, "just:") == 0) {
                     std::vector<std::string> a; { std::istringstream is(op.substr(5)); std::string x; while (std::getline(is, x, ':')) a.push_back(x); }
@@ -616,7 +633,7 @@ int main(int argc, char **argv) {
                     g_events.clear(); g_trace = jtrace;
                     float r = gr_seg_justify(seg, lines[li].s[0], font, width, (gr_justFlags)flags, pf, pl);
                     g_trace = false;
-                    if (jtrace) jev += "j" + std::to_string(li) + ";" + g_events + line_snapshot(seg, lines);
+                    if (jtrace) jev += "j" + std::to_string(li) + ";" + g_events + line_snapshot(seg, lines) + ptr_snapshot(seg, all_slots);
                     // every line must still be a well-formed chain with the same slots in the same order
                     std::string verdict = "ok";
                     for (size_t l2 = 0; l2 < lines.size() && verdict == "ok"; l2++) {
